@@ -237,7 +237,7 @@ class Infeasible(Exception):
 
 class Num:
     """Path-local numeric knowledge: symbol refinements + relational facts."""
-    __slots__ = ('lo', 'hi', 'cong', 'facts', 'neq', 'divs')
+    __slots__ = ('lo', 'hi', 'cong', 'facts', 'neq', 'divs', 'nez')
 
     def __init__(self):
         self.lo = {}
@@ -246,6 +246,7 @@ class Num:
         self.facts = []    # list of Form, each meaning F <= 0
         self.neq = {}      # sym -> frozenset of excluded values
         self.divs = set()  # Div symbols created on this path
+        self.nez = []      # forms known to be != 0
 
     def copy(self):
         n = Num()
@@ -255,6 +256,7 @@ class Num:
         n.facts = list(self.facts)
         n.neq = dict(self.neq)
         n.divs = set(self.divs)
+        n.nez = list(self.nez)
         return n
 
     # ---- per-symbol bounds
@@ -607,6 +609,15 @@ class Num:
             if hi in ex and hi != lo:
                 self.set_hi(s, hi - 1)
                 changed = True
+
+    def note_nonzero(self, f: Form):
+        if f not in self.nez and len(self.nez) < 64:
+            self.nez.append(f)
+
+    def known_nonzero(self, f: Form) -> bool:
+        if not self.nez:
+            return False
+        return f in self.nez or f.neg() in self.nez
 
     # ---- queries
     def rng2(self, f: Form):
